@@ -12,6 +12,7 @@ package proxy
 // the client every backend byte.
 
 import (
+	"bufio"
 	"bytes"
 	"fmt"
 	"io"
@@ -19,6 +20,7 @@ import (
 	"testing"
 	"time"
 
+	"github.com/pires/go-proxyproto"
 	"github.com/robinbraemer/event"
 	"pgregory.net/rapid"
 
@@ -36,6 +38,12 @@ type c31dCase struct {
 	ReplyLen  int    `json:"reply_len"`  // opaque backend bytes
 	Pipelined bool   `json:"pipelined"`  // handshake and stream in one write
 	Seed      byte   `json:"seed"`
+	// ProxyProtocol: the route sends a PROXY protocol header with the client's real
+	// address in front of everything else. Reload: before the client connects the
+	// routes are published again through Proxy.ApplyLiveConfig (a live reload that
+	// adds an unrelated route); the route's options must survive that.
+	ProxyProtocol bool `json:"proxy_protocol,omitempty"`
+	Reload        bool `json:"reload,omitempty"`
 }
 
 const c31dWait = 20 * time.Second
@@ -81,7 +89,22 @@ func c31dRunInner(c c31dCase) (res verifkit.Result) {
 		defer conn.Close()
 		got := make([]byte, len(want))
 		_ = conn.SetReadDeadline(time.Now().Add(c31dWait))
-		n, err := io.ReadFull(conn, got)
+		var rd io.Reader = conn
+		if c.ProxyProtocol {
+			br := bufio.NewReader(conn)
+			hdr, herr := proxyproto.Read(br)
+			if herr != nil {
+				peek, _ := br.Peek(min(br.Buffered(), 24))
+				backendDone <- backendResult{err: fmt.Errorf("the route has proxyProtocol on, but the connection does not start with a PROXY header (%v; first bytes %x)", herr, peek)}
+				return
+			}
+			if src, ok := hdr.SourceAddr.(*net.TCPAddr); !ok || !src.IP.Equal(net.IPv4(127, 0, 0, 1)) {
+				backendDone <- backendResult{err: fmt.Errorf("PROXY header carries source %v, the client's address is 127.0.0.1:<port>", hdr.SourceAddr)}
+				return
+			}
+			rd = br
+		}
+		n, err := io.ReadFull(rd, got)
 		if err != nil {
 			backendDone <- backendResult{got: got[:n], err: err}
 			return
@@ -91,15 +114,27 @@ func c31dRunInner(c c31dCase) (res verifkit.Result) {
 		close(gotAll)
 		// anything the proxy sends beyond what the client sent (until the client leaves)
 		_ = conn.SetReadDeadline(time.Now().Add(c31dWait))
-		extra, _ := io.ReadAll(conn)
+		extra, _ := io.ReadAll(rd)
 		backendDone <- backendResult{got: append(got[:n], extra...)}
 	}()
 
+	var startCfg config.Config
 	p := c43NewProxy(event.Nop, nil, func(cfg *config.Config) {
 		cfg.OnlineMode = false
 		cfg.Lite.Enabled = true
-		cfg.Lite.Routes = []liteconfig.Route{{Host: []string{"*"}, Backend: []string{ln.Addr().String()}}}
+		cfg.Lite.Routes = []liteconfig.Route{{Host: []string{"*"}, Backend: []string{ln.Addr().String()}, ProxyProtocol: c.ProxyProtocol}}
+		startCfg = *cfg
 	})
+	if c.Reload {
+		candidate := startCfg
+		candidate.Lite.Routes = []liteconfig.Route{
+			{Host: []string{"decoy.c31d.invalid"}, Backend: []string{"127.0.0.9:1"}},
+			{Host: []string{"*"}, Backend: []string{ln.Addr().String()}, ProxyProtocol: c.ProxyProtocol},
+		}
+		if err := p.ApplyLiveConfig(&candidate); err != nil {
+			return verifkit.Result{Inconclusive: true, Labels: []string{"inconclusive:live-reload-refused:" + err.Error()}}
+		}
+	}
 	cl := c43Dial(p)
 	defer cl.Finish()
 
@@ -111,6 +146,12 @@ func c31dRunInner(c c31dCase) (res verifkit.Result) {
 		}
 	}
 	labels := []string{fmt.Sprintf("next-state:%d", c.Next)}
+	if c.ProxyProtocol {
+		labels = append(labels, "proxy-protocol-route")
+	}
+	if c.Reload {
+		labels = append(labels, "after-live-reload")
+	}
 	if c.Pipelined {
 		labels = append(labels, "pipelined")
 	}
@@ -196,19 +237,21 @@ func c31dShort(b []byte) string {
 
 func c31dGen(t *rapid.T) c31dCase {
 	return c31dCase{
-		Protocol:  rapid.SampledFrom([]int32{47, 340, 754, 763, 765, 766, 767, 769, 772, 774, 776}).Draw(t, "protocol"),
-		Next:      rapid.SampledFrom([]int32{2, 2, 3}).Draw(t, "next"),
-		Host:      rapid.SampledFrom([]string{"play.example.org", "mc.example.com", "localhost", "Play.Example.ORG.", "h\x00FML2\x00"}).Draw(t, "host"),
-		Port:      rapid.SampledFrom([]uint16{25565, 0, 65535}).Draw(t, "port"),
-		StreamLen: rapid.SampledFrom([]int{0, 1, 20, 300, 4096, 5000}).Draw(t, "stream"),
-		ReplyLen:  rapid.SampledFrom([]int{0, 1, 20, 300, 5000}).Draw(t, "reply"),
-		Pipelined: rapid.Bool().Draw(t, "pipelined"),
-		Seed:      rapid.Byte().Draw(t, "seed"),
+		Protocol:      rapid.SampledFrom([]int32{47, 340, 754, 763, 765, 766, 767, 769, 772, 774, 776}).Draw(t, "protocol"),
+		Next:          rapid.SampledFrom([]int32{2, 2, 3}).Draw(t, "next"),
+		Host:          rapid.SampledFrom([]string{"play.example.org", "mc.example.com", "localhost", "Play.Example.ORG.", "h\x00FML2\x00"}).Draw(t, "host"),
+		Port:          rapid.SampledFrom([]uint16{25565, 0, 65535}).Draw(t, "port"),
+		StreamLen:     rapid.SampledFrom([]int{0, 1, 20, 300, 4096, 5000}).Draw(t, "stream"),
+		ReplyLen:      rapid.SampledFrom([]int{0, 1, 20, 300, 5000}).Draw(t, "reply"),
+		Pipelined:     rapid.Bool().Draw(t, "pipelined"),
+		Seed:          rapid.Byte().Draw(t, "seed"),
+		ProxyProtocol: rapid.IntRange(0, 2).Draw(t, "proxyProtocol") == 0,
+		Reload:        rapid.IntRange(0, 2).Draw(t, "reload") == 0,
 	}
 }
 
 func TestVerif_C31Dispatch(t *testing.T) {
 	verifkit.Check(t, "C31", "dispatch",
-		"real Proxy.HandleConn in Lite mode with one catch-all route to a loopback TCP backend: handshake (11 protocols 1.8..26.2, next state 2 login / 3 transfer, host with upper case, trailing dot or Forge marker, port boundary values) followed by 0..5000 opaque client bytes (pipelined with the handshake or not) and 0..5000 backend bytes; oracle: the backend receives the handshake exactly as sent and then every client byte, the client every backend byte, and the proxy never answers the client itself; non-trivial = bytes in both directions",
+		"real Proxy.HandleConn in Lite mode with one catch-all route to a loopback TCP backend: handshake (11 protocols 1.8..26.2, next state 2 login / 3 transfer, host with upper case, trailing dot or Forge marker, port boundary values) optionally a route with proxyProtocol and/or a live reload of the routes (Proxy.ApplyLiveConfig) before the client connects, followed by 0..5000 opaque client bytes (pipelined with the handshake or not) and 0..5000 backend bytes; oracle: the backend receives the handshake exactly as sent and then every client byte, the client every backend byte, and the proxy never answers the client itself; non-trivial = bytes in both directions",
 		c31dGen, c31dRun)
 }
